@@ -12,6 +12,8 @@ type Config struct {
 	Backrefs, Lookaround, Atomic, Conditionals, Named, Anchors, LazyQuant bool
 	// AllowNullableQuant lifts the C01 fragment restriction (used by the C02/C07-style generators)
 	AllowNullableQuant bool
+	// Balancing groups and Unicode category classes: full-syntax generators only
+	Balancing, UnicodeCats bool
 	Alphabet           []rune
 }
 
@@ -53,7 +55,12 @@ func (s *state) class() *Class {
 		case 3:
 			c.Items = append(c.Items, ClassItem{Short: "dwsDWS"[s.rng.Intn(6)]})
 		case 4:
-			c.Items = append(c.Items, ClassItem{Lo: 'x', Hi: 'y'})
+			if s.cfg.UnicodeCats && s.rng.Intn(2) == 0 {
+				cats := []string{"L", "Lu", "Ll", "Nd", "P", "IsGreek", "Mn"}
+				c.Items = append(c.Items, ClassItem{Cat: cats[s.rng.Intn(len(cats))], CatNeg: s.rng.Intn(4) == 0})
+			} else {
+				c.Items = append(c.Items, ClassItem{Lo: 'x', Hi: 'y'})
+			}
 		default:
 			r := s.cfg.Alphabet[s.rng.Intn(len(s.cfg.Alphabet))]
 			c.Items = append(c.Items, ClassItem{Lo: r, Hi: r})
@@ -209,6 +216,27 @@ func (s *state) node(depth int) *Node {
 				return &Node{Kind: KCondExpr, Subs: []*Node{s.node(depth - 1), s.node(depth - 1), s.node(depth - 1)}}
 			}
 		default:
+			if s.cfg.Balancing && s.rng.Intn(3) == 0 {
+				// balancing group on an earlier named group
+				var named []*Node
+				for _, c := range s.caps {
+					if c.Name != "" {
+						named = append(named, c)
+					}
+				}
+				if len(named) > 0 {
+					g := named[s.rng.Intn(len(named))]
+					b := &Node{Kind: KBalance, RefName: g.Name, Subs: []*Node{s.node(depth - 1)}}
+					if s.rng.Intn(2) == 0 {
+						b.Name = named[s.rng.Intn(len(named))].Name
+					}
+					return b
+				}
+			}
+			if s.cfg.UnicodeCats && s.rng.Intn(3) == 0 {
+				cats := []string{"L", "Lu", "Ll", "Nd", "P", "IsGreek", "IsCyrillic", "Mn", "S", "Zs"}
+				return &Node{Kind: KCat, Name: cats[s.rng.Intn(len(cats))], Neg: s.rng.Intn(4) == 0}
+			}
 			return &Node{Kind: KGroup, Subs: []*Node{s.node(depth - 1)}}
 		}
 	}
